@@ -1,6 +1,6 @@
 (* Decoding of mint histories sent by the harness and encoding of the observations. *)
 From Coq Require Import ZArith List Bool.
-From Verif Require Import Sexp Model Sem.
+From Verif Require Import Admin Sexp Model Sem Trace.
 Import ListNotations.
 Open Scope Z_scope.
 
@@ -61,11 +61,27 @@ Inductive item :=
 | ICrash (o : op) (k : Z)
 | IFault (o : op) (positions : list Z)
 | IConc (ops : list op) (sched : list Z)
-| IReconf (c : config).   (* the operator restarts the mint with other limits / MPP support: the following items run under c *)
+| IReconf (c : config)
+| IAdmin (r : areq).      (* a request to the admin RPC (mint/manager) *)   (* the operator restarts the mint with other limits / MPP support: the following items run under c *)
 
 Definition d_cfg (s : sexp) : option config :=
   match s with
   | L [A a; A b; A c; A m; A f] => Some (mkCfg a b c (zb m) f)
+  | _ => None
+  end.
+
+Definition d_areq (s : sexp) : option areq :=
+  match s with
+  | L [A 1; L []] => Some (AIssued None)
+  | L [A 1; L [A id]] => Some (AIssued (Some id))
+  | L [A 2; L []] => Some (ARedeemed None)
+  | L [A 2; L [A id]] => Some (ARedeemed (Some id))
+  | L [A 3] => Some ATotal
+  | L [A 4] => Some AList
+  | L [A 5; L []] => Some (ARotate None)
+  | L [A 5; L [L [A 0; A z]]] => Some (ARotate (Some (FNum z)))
+  | L [A 5; L [L [A 1]]] => Some (ARotate (Some FJunk))
+  | L [A 6] => Some AOther
   | _ => None
   end.
 
@@ -76,6 +92,7 @@ Definition d_item (s : sexp) : option item :=
   | L [A 2; o; L ps] => do o' <- d_op o; do l <- opt_map sZ ps; Some (IFault o' l)
   | L [A 3; L os; L sc] => do os' <- opt_map d_op os; do l <- opt_map sZ sc; Some (IConc os' l)
   | L [A 4; cf] => do c <- d_cfg cf; Some (IReconf c)
+  | L [A 5; rq] => do r <- d_areq rq; Some (IAdmin r)
   | _ => None
   end.
 
@@ -136,7 +153,24 @@ Definition failed_restart (o : op) (r : opres) : bool :=
   end.
 Definition empty_snapshot : sexp := L [L []; L []; L []; L []; L []; L []; L []].
 
+Definition e_rows (rows : list (Z * Z)) : sexp := L (map (fun x => L [A (fst x); A (snd x)]) (sort_by fst rows)).
+
+Definition e_aresp (r : aresp) : sexp :=
+  match r with
+  | AErr code cls => L [A 0; A code; A cls]
+  | AOne ks a => L [A 1; A ks; A a]
+  | AAll rows t => L [A 2; e_rows rows; A t]
+  | ATotals i ti rd tr c => L [A 3; e_rows i; A ti; e_rows rd; A tr; A c]
+  | AKeysets l => L [A 4; L (map (fun k => L [A (k_id k); A (k_fee k); eBool (k_active k)]) (sort_by k_id l))]
+  | ARotated id fee act => L [A 5; A id; A fee; eBool act]
+  | APanicked => L [A 9]
+  end.
+
 Definition oracle_of (positions : list Z) : oracle := fun i => mem i positions.
+
+(* the calls the operation made, in order (Trace.cmd_tag); LoadMint runs before the harness can wrap its storage: not compared *)
+Definition e_log (o : op) (l : list Z) : sexp :=
+  match o with ORestart _ _ => L [] | _ => L (map A l) end.
 
 Fixpoint run_items (cfg : config) (proj : Z) (w : world) (its : list item) : list sexp :=
   match its with
@@ -144,14 +178,15 @@ Fixpoint run_items (cfg : config) (proj : Z) (w : world) (its : list item) : lis
   | it :: rest =>
       let '(cfg', w', out) :=
         match it with
-        | INormal o => let '(w1, r) := step cfg no_fault w o in
-                       (cfg, w1, L [e_res proj r; if failed_restart o r then empty_snapshot else snapshot w1])
-        | ICrash o k => let '(w1, r) := step_crash cfg (Z.to_nat k) w o in (cfg, w1, L [e_res proj r; snapshot w1])
-        | IFault o ps => let '(w1, r) := step cfg (oracle_of ps) w o in (cfg, w1, L [e_res proj r; snapshot w1])
+        | INormal o => let '(w1, r, l) := step_log cfg no_fault w o in
+                       (cfg, w1, L [e_res proj r; if failed_restart o r then empty_snapshot else snapshot w1; e_log o l])
+        | ICrash o k => let '(w1, r, l) := step_crash_log cfg (Z.to_nat k) w o in (cfg, w1, L [e_res proj r; snapshot w1; e_log o l])
+        | IFault o ps => let '(w1, r, l) := step_log cfg (oracle_of ps) w o in (cfg, w1, L [e_res proj r; snapshot w1; e_log o l])
         | IConc os sc =>
             let '(w1, rs) := run_concurrent cfg w os (map Z.to_nat sc) in
             (cfg, w1, L [L (map (e_res proj) rs); snapshot w1])
         | IReconf c => (c, w, L [L [A 5]; snapshot w])
+        | IAdmin rq => let '(w1, r) := admin_step w rq in (cfg, w1, L [e_aresp r; snapshot w1])
         end in
       out :: run_items cfg' proj w' rest
   end.
